@@ -357,7 +357,8 @@ class Recorder:
             rec.ev.append(["init_done", rec.snap(b), dict(max_fun_evals=_f(b.options["max_fun_evals"]), nfs=_f(b.options["noise_final_samples"]),
                                                          max_iter=_f(b.options["max_iter"]), search_n_try=_f(b.options["search_n_try"]),
                                                          tol_stall_iters=_f(b.options["tol_stall_iters"]), tol_fun=_f(b.options["tol_fun"]),
-                                                         tol_mesh_state=float(b.optim_state["tol_mesh"]))])
+                                                         tol_mesh_state=float(b.optim_state["tol_mesh"]),
+                                                         fun_eval_start=_f(b.options["fun_eval_start"]))])
             return r
         b._search_step_, b._poll_step_, b._eval_improvement_ = w_search, w_poll, w_impr
         b._update_incumbent_, b._re_evaluate_history_, b._init_optimization_ = w_upd, w_reeval, w_initopt
